@@ -166,8 +166,9 @@ def get_fastapi_router(
     graph = MappingServiceGraph(converter=converter)
     processor = MappingServiceSPARQLProcessor(graph=graph)
 
-    def _resolve(accept: str | None, sparql: str) -> Response:
-        content_type = handle_header(accept)
+    def _resolve(accept: list[str] | None, sparql: str) -> Response:
+        # several Accept field lines mean the same as one line with their values joined by commas (RFC 7230 section 3.2.2)
+        content_type = handle_header(", ".join(accept) if accept else None)
         results = graph.query(sparql, processor=processor)
         response = results.serialize(format=CONTENT_TYPE_TO_RDFLIB_FORMAT[content_type])
         return Response(response, media_type=content_type)
@@ -175,7 +176,7 @@ def get_fastapi_router(
     @api_router.get(route)
     def resolve_get(
         query: str = Query(description="The SPARQL query to run"),
-        accept: str | None = Header(default=None),
+        accept: list[str] | None = Header(default=None),
     ) -> Response:
         """Run a SPARQL query and serve the results."""
         return _resolve(accept, query)
@@ -183,7 +184,7 @@ def get_fastapi_router(
     @api_router.post(route)
     def resolve_post(
         query: str = Form(description="The SPARQL query to run"),
-        accept: str | None = Header(default=None),
+        accept: list[str] | None = Header(default=None),
     ) -> Response:
         """Run a SPARQL query and serve the results."""
         return _resolve(accept, query)
